@@ -217,7 +217,7 @@ def v15_sign_case(kd, hn, msg, acc):
     return sig
 
 
-def v15_verify_case(kd, hn, msg, sig, tag, acc, demand=False):
+def v15_verify_case(kd, hn, msg, sig, tag, acc, demand=False, size=None):
     """one pkcs1_15 verify of a candidate; -> (reference verdict, reason, library outcome class)"""
     from Crypto.Signature import pkcs1_15
     digest = B.ref_digest(hn, msg)
@@ -235,7 +235,7 @@ def v15_verify_case(kd, hn, msg, sig, tag, acc, demand=False):
     if res not in ("accept", "ValueError"):
         acc.violation("C04/pkcs1_15/verify-raises/%s@%s" % (res, exc_site(out[1])),
                       pre + ": verify raised %s: %s (must be ValueError; reference: %s %s)" % (res, out[1], verdict, reason or ""),
-                      case, script=script("%s %s" % (verdict, reason or "")))
+                      case, script=script("%s %s" % (verdict, reason or "")), size=size)
     elif res == "accept":
         if verdict == "reject":
             acc.violation("C04/pkcs1_15/accepts-" + reason, pre + ": accepted, RFC 8017 8.2.2 rejects it (%s)" % reason,
@@ -632,7 +632,7 @@ def worker(shards):
     for sh in shards:
         kind = sh[0]
         kd = keys[sh[1]]
-        flipmode = "all" if kd["bits"] <= 1032 else "ends64+bytewise"
+        flipmode = "all"
         if kind == "v15":
             # ("v15", key, hash, message names, what) ; what subset of {"sig", "flips", "forge", "emflips"}
             _, _, hn, mnames, what, other = sh
@@ -642,8 +642,9 @@ def worker(shards):
                 acc.count("signatures")
                 if sig is None:
                     # modulus too short for this DigestInfo: every candidate must be refused with ValueError
-                    for tag, c in (("zeros", bytes(kd["k"])), ("ones", R.i2osp(1, kd["k"])), ("empty", b"")):
-                        _tally(acc, "v15", kd, hn, tag, *v15_verify_case(kd, hn, msg, c, tag, acc))
+                    for ci, (tag, c) in enumerate((("zeros", bytes(kd["k"])), ("ones", R.i2osp(1, kd["k"])), ("empty", b""))):
+                        _tally(acc, "v15", kd, hn, tag, *v15_verify_case(kd, hn, msg, c, tag, acc,
+                                                                         size=10 * list(B.V15_HASHES).index(hn) + ci))
                     continue
                 _tally(acc, "v15", kd, hn, "authentic", *v15_verify_case(kd, hn, msg, sig, "authentic", acc, demand=True))
                 if "sig" in what:
